@@ -25,11 +25,13 @@ RULE = ("(1) TLC enumerates every node of the draw-parameter tree x every scalar
         "(node, field) is executed as a history of Sets on one real MPDrawParams (set, same set again, a set of another "
         "field at another node, set back) and every Set is checked against the propagation contract. "
         "(2) TLC enumerates all obstacle descriptors (static / environment / dynamic without prediction, with trajectory or "
-        "set-based prediction of 1..3 steps / phantom, t0 in 0..2) x all windows 0 <= begin <= end <= 6 x 7 lanelet id "
-        "filters, single-obstacle scenarios plus one scenario with all descriptors; drawn cells and lanelets are compared "
-        "with the contract, time_end itself is an EITHER band. "
+        "set-based prediction of 1..3 steps / phantom, t0 in 0..2) x all windows 0 <= begin <= end <= 6 x lanelet id "
+        "filters (7 kinds; quick: two per case, rotating; thorough: all), single-obstacle scenarios plus scenarios with all "
+        "descriptors and random sub-scenarios; drawn cells and lanelets are compared with the contract, time_end itself "
+        "is an EITHER band. "
         "(3) archetypes x windows (from TLC) x flag rows (quick: seeded pairwise-covering rows + random rows; thorough: "
-        "full product over 12 obstacle flags, remaining flags random) must draw and render without exception. "
+        "full product over the 12 top-level flags of the statement x the 8 obstacle archetypes, remaining flags random) "
+        "must draw and render without exception; a failing run is re-run with fewer settings to name the minimal cause. "
         "distinct_nontrivial = distinct (node, field) + (descriptor, window, filter) + (archetype, flag row) cases.")
 ASSUMPTIONS = ["parameter-tree table spec/RenderTree.tla is generated from dataclasses.fields of the real classes and "
                "re-generated at every check (difference = SPEC-DRIFT, machinery failure, never a violation)",
@@ -178,7 +180,7 @@ def _do_set(p, node_path, field, value, route):
         return "exc:" + type(ex).__name__
 
 
-def _set_event(p, node_path, field, value, route, sig, memo):
+def _set_event(p, node_path, field, value, route, sig, memo, step="first"):
     before = memo.get("snap") or snapshot(p)          # the snapshot after the previous Set on the same object
     res = _do_set(p, node_path, field, value, route)
     after = memo["snap"] = snapshot(p)
@@ -186,7 +188,7 @@ def _set_event(p, node_path, field, value, route, sig, memo):
     changed = [[list(path), k] for (path, k) in sorted(set(before) | set(after))
                if before.get((path, k), "<absent>") != after.get((path, k), "<absent>")]
     return {"op": "set", "node": list(node_path), "field": field, "v": _tok(value), "res": res, "vals": vals,
-            "changed": changed, "sig": sig}
+            "changed": changed, "step": step, "sig": sig}
 
 
 def _exec_tree(case):
@@ -211,7 +213,7 @@ def _exec_tree(case):
                        "vals": [[list(path), tok] for (path, k), tok in sorted(after.items()) if k == field],
                        "changed": [[list(path), k] for (path, k) in sorted(set(base) | set(after))
                                    if base.get((path, k), "<absent>") != after.get((path, k), "<absent>")],
-                       "sig": "propagate/%s@root/constructor" % field})
+                       "step": "constructor", "sig": "propagate/%s@root/constructor" % field})
     for field in case["fields"]:
         p, memo = MPDrawParams(), {}
         v1, v2 = _values_for(field, p, node_path)
@@ -222,13 +224,13 @@ def _exec_tree(case):
         ev.append(_set_event(p, node_path, field, v1, "attr", sig, memo))
         if not below:
             continue
-        ev.append(_set_event(p, node_path, field, v1, "item", sig + "/again", memo))
+        ev.append(_set_event(p, node_path, field, v1, "item", sig, memo, "again"))
         # a Set of another field somewhere else, then the first field once more with another value
         other = rng.choice(all_nodes)
         g = rng.choice([f for f in case["fields"] if f != field])
         w = _values_for(g, p, other)[0]
         ev.append(_set_event(p, other, g, w, "attr", "propagate/other-field", memo))
-        ev.append(_set_event(p, node_path, field, v2, "attr", sig + "/after-other", memo))
+        ev.append(_set_event(p, node_path, field, v2, "attr", sig, memo, "after-other"))
     return ev
 
 
@@ -366,21 +368,27 @@ def _params_window(b, e, route):
 
 
 class _Fig:
-    """One matplotlib figure reused for the renders of one case; replaced after an exception, closed at the end."""
-
-    def __init__(self):
-        self.fig = self.ax = None
+    """The matplotlib figure of this worker process: reused (MPRenderer.render clears the axes first), replaced after an
+    exception and after every 40 renders so that memory stays bounded."""
+    fig = ax = None
+    uses = 0
 
     def get(self):
         import matplotlib.pyplot as plt
-        if self.fig is None:
-            self.fig, self.ax = plt.subplots(figsize=(3, 2), dpi=50)
-        return self.fig, self.ax
+        if _Fig.fig is None or _Fig.uses >= 40:
+            plt.close("all")
+            _Fig.fig, _Fig.ax = plt.subplots(figsize=(3, 2), dpi=50)
+            _Fig.uses = 0
+        _Fig.uses += 1
+        return _Fig.fig, _Fig.ax
 
     def drop(self):
         import matplotlib.pyplot as plt
         plt.close("all")
-        self.fig = self.ax = None
+        _Fig.fig = _Fig.ax = None
+
+    def done(self):
+        """End of a case: keep the figure for the next case of this process."""
 
 
 def _exc(ex):
@@ -448,7 +456,7 @@ def _exec_window(case):
                            "ids": list(ids or []), "lanelets": lids, "stray": lstray, "sig": "lanelets/" + fname})
             ev.append({"op": "render", "res": rres, "sig": "render/" + tag})
     finally:
-        figs.drop()
+        figs.done()
     return ev
 
 
@@ -486,6 +494,9 @@ NODE_FLAGS = [
 ROOT_FLAGS = [":draw_shape", ":draw_icon", ":draw_direction", ":show_label", ":draw_signals", ":draw_initial_state",
               ":draw_history", ":draw_occupancies", ":draw_trajectory", ":draw_continuous", ":draw_arrow",
               ":draw_border_vertices"]
+# archetypes of the full flag product in the thorough tier (the ones with dynamic / phantom obstacles)
+PRODUCT_ARCHETYPES = ("plain", "point-mass", "custom-state", "no-orientation", "uncertain-position", "uncertain-orientation",
+                      "defaults", "interval-sets")
 LFILTERS = {"all": None, "none-selected": [], "some": [101, 103], "unknown": [999]}
 PFILTERS = {"all": None, "none-selected": [], "some": [11, 13], "unknown": [99]}
 
@@ -750,7 +761,7 @@ def _exec_total(case):
             ev.append(dict(base, op="draw", res=outcome[0]))
             ev.append(dict(base, op="render", res=outcome[1]))
     finally:
-        figs.drop()
+        figs.done()
     return ev
 
 
@@ -760,6 +771,7 @@ def _exec_total(case):
 # =====================================================================================================================
 
 def model_check(ctx):
+    check_tree(ctx)                 # fail early: every model below is built on the generated table
     # coverage off for the tree model (x4 run time; its only action is DoSet, the state count shows it is taken)
     ctx.mc("MC_Render", "MC_Render_t.cfg" if ctx.thorough else "MC_Render.cfg", coverage=False, timeout=1800)
     ctx.mc("MC_Render", "MC_Render_win.cfg", coverage=True)
@@ -821,7 +833,10 @@ def cases(ctx):
             ids = rng.sample(range(1, 30), 6)
             cs.append({"part": "window", "obs": [dict(d, id=i) for d, i in zip(sub, ids)], "b": b, "e": e,
                        "filters": [rng.choice(sorted(FILTERS))]})
-    ctx.extra["window_cases"] = {"descriptors": len(descs), "windows": len(windows)}
+    ctx.extra["window_cases"] = {"descriptors": len(descs), "windows": len(windows),
+                                 "descriptor_x_window": len(win),
+                                 "with_a_shape_that_must_be_drawn": sum(1 for c in win if c["must"] > 0),
+                                 "with_an_EITHER_band_shape (t = time_end)": sum(1 for c in win if c["band"] > 0)}
     # (3) totality: archetype x window from the spec, flag rows from here
     tot = ctx.gen("MC_Render", "GEN_Render_total.cfg")
     wins = {}
@@ -853,7 +868,7 @@ def cases(ctx):
         free = [k for k in NODE_FLAGS if k.split(":")[1] not in root_fields]
         for bits in range(1 << len(ROOT_FLAGS)):
             base = {k: (bits >> i) & 1 for i, k in enumerate(ROOT_FLAGS)}
-            for arch in archs:
+            for arch in [a for a in archs if a in PRODUCT_ARCHETYPES]:
                 row = dict(base)
                 row.update({k: rng.randint(0, 1) for k in free})
                 row["lf"], row["pf"] = rng.choice(sorted(LFILTERS)), rng.choice(sorted(PFILTERS))
